@@ -53,6 +53,19 @@ func renderTree(sb *strings.Builder, t *bolt.VerifNodeTree) {
 	}
 }
 
+// safeCommit: a panic inside Commit is an observation (the model predicts a successful commit), not the end of the harness
+func safeCommit(tx *bolt.Tx) (err error, panicked string) {
+	defer func() {
+		if r := recover(); r != nil {
+			panicked = strings.ReplaceAll(fmt.Sprint(r), " ", "_")
+			if len(panicked) > 160 {
+				panicked = panicked[:160]
+			}
+		}
+	}()
+	return tx.Commit(), ""
+}
+
 func treeMain(args []string) error {
 	c := newCommon("tree")
 	dir := c.fs.String("dir", "", "scratch dir")
@@ -208,9 +221,14 @@ func treeMain(args []string) error {
 				fl = append(fl, fmt.Sprintf("A:%d:%d", a, ret))
 			}
 		}}
-		cerr := tx.Commit()
+		cerr, pan := safeCommit(tx)
 		bolt.VerifRebalanceHook = nil
 		bolt.VerifHook = nil
+		if pan != "" {
+			fmt.Fprintf(w, "case %d ps=%d fill=%d inline=0 seq=%d\npre %s\norder %s\nfl %s\npanic %s\nend\n", ci, ps, fill, seq, pre, csv(order), strings.Join(fl, " "), pan)
+			go db.Close() // the writer lock may still be held: do not wait for it
+			continue
+		}
 		if cerr != nil {
 			db.Close()
 			return cerr
